@@ -81,8 +81,8 @@ static inline i128 S_rem(i128 a, i128 b){
   if (a == b || a == -b) return 0;
   return __CPROVER_uninterpreted_zrem(a, b); }
 #endif
-static inline i128 zraw(Z z){ return (i128)(((u128)z.f0.a[0].f1 << 64) | (u128)z.f0.a[0].f0); }
-static inline Z mkz(i128 v){ Z z; z.f0.a[0].f0 = (uint64_t)(u128)v; z.f0.a[0].f1 = (uint64_t)((u128)v >> 64); return z; }
+static inline i128 zraw(Z z){ return (i128)(((u128)z.f0.a.f1 << 64) | (u128)z.f0.a.f0); }
+static inline Z mkz(i128 v){ Z z; z.f0.a.f0 = (uint64_t)(u128)v; z.f0.a.f1 = (uint64_t)((u128)v >> 64); return z; }
 static inline i128 iabs(i128 v){ return v < 0 ? -v : v; }
 static inline i128 imin(i128 p, i128 q){ return p <= q ? p : q; }
 static inline i128 imax(i128 p, i128 q){ return p <= q ? q : p; }
